@@ -328,6 +328,23 @@ def layout(prog, ctx):
                 copies += 1
             else:
                 bad.append('%s[%s] = region[%s]' % (arr, idx, regs[0].args[0]))
+    # whole-list copies of the region (std::copy from its begin to the begin of another list, or copy construction)
+    from ..symx import State as _St
+    for c_ in calls(ms):
+        if (c_.get('callee') or {}).get('q') == 'std::copy' and len(c_.get('args', [])) == 3:
+            its = [sxm.iterator(strip_casts(a_), _St({})) for a_ in c_['args']]
+            if all(its) and its[0][0] == 'region' and its[1][0] == 'region' and its[0][1] == 0 and its[2][0] != 'region' and its[2][1] == 0:
+                if str(sp.simplify(its[1][1])) in ('len(region)',) or any(str(sp.simplify(its[1][1] - 2 * Symbol(h_, integer=True))) == '0' for h_ in halves) \
+                        or any(sp.simplify(its[1][1] - 2 * sxm.symbol(h_, 'int')) == 0 for h_ in halves):
+                    copies += 2
+                else:
+                    bad.append('std::copy of region[0,%s) does not copy both bounds of every axis' % its[1][1])
+    for d_ in local_decls(ms):
+        i_ = strip_casts(d_['init']) if d_.get('init') is not None else {}
+        while i_.get('k') == 'Construct' and len([a_ for a_ in i_.get('args', []) if a_.get('k') != 'DefaultArg']) == 1:
+            i_ = strip_casts(i_['args'][0])
+        if i_.get('k') == 'Ref' and i_.get('name') == 'region' and d_['ty'].startswith('std::vector<double'):
+            copies += 2
     if bad:
         ctx.violated('C14.d', 'Miser:subregions', ms, 'Miser builds its sub-regions with a different layout: %s' % bad, witness={'assignments': bad})
     elif mids and all(subs_.values()) and copies >= 2 and halves:
